@@ -18,7 +18,18 @@ fn grid_pt(i: u64) -> P {
 impl C13 {
     fn check_poly(&self, cx: &mut Cx, poly: &[P], queries: &[P], class: &str) {
         let shape = Shape::Polygon(Polygon { points: poly.iter().map(|p| pt(*p)).collect() });
-        for &q in queries {
+        // besides the caller's points: points level with the polygon (at a vertex's height, at mid-height) but very far to either side -
+        // clearly outside, and far enough for a product of a height and a horizontal distance to leave 64 bits
+        let mut all: Vec<P> = queries.to_vec();
+        if !poly.is_empty() {
+            let (ylo, yhi) = (poly.iter().map(|p| p.1).min().unwrap(), poly.iter().map(|p| p.1).max().unwrap());
+            for y in [poly[0].1, ylo + (yhi - ylo) / 2] {
+                for x in [1i64 << 62, -(1i64 << 62), 1i64 << 40, i64::MAX - 1, i64::MIN + 2] {
+                    all.push((x, y));
+                }
+            }
+        }
+        for &q in all.iter() {
             cx.eval();
             let want = poly_contains(poly, q);
             let got = match guard(|| shape.contains(&pt(q))) {
